@@ -101,9 +101,11 @@ def nonce_stream(stream):
         taproot.randbelow = old
 
 
-def run_session(privs, nonces, msg, root, points=None, tamper=None):
-    """the signing flow of test_musig.py.  tamper = None | ("alter", i, delta) | ("omit", i)"""
-    musig = MuSigTapScript(points if points is not None else [p.point for p in privs])
+def run_session(privs, nonces, msg, root, points=None, tamper=None, musig=None):
+    """the signing flow of test_musig.py.  tamper = None | ("alter", i, delta) | ("omit", i);
+    musig = an existing MuSigTapScript object to be reused for this session"""
+    if musig is None:
+        musig = MuSigTapScript(points if points is not None else [p.point for p in privs])
     secret_pairs, point_pairs = [], []
     with nonce_stream([k for pair in nonces for k in pair]):
         for _ in privs:
@@ -277,6 +279,31 @@ def p_session(parts, msg, root, seed):
     return None
 
 
+def p_session_reuse(parts, msg, msg2, root, seed):
+    """several signing sessions on ONE MuSigTapScript object (same message with fresh nonces, another message,
+    the first nonces again): every session yields a signature valid under BIP340 — nothing is remembered between sessions"""
+    import random
+    r = random.Random(seed)
+    privs = [PrivateKey(p[0]) for p in parts]
+    nonces = [(p[1], p[2]) for p in parts]
+    fresh = [(r.randrange(1, N_), r.randrange(1, N_)) for _ in parts]
+    for ks in (nonces, fresh):
+        if sum(k[0] for k in ks) % N_ == 0 or sum(k[1] for k in ks) % N_ == 0:
+            return None
+    musig, sig = run_session(privs, nonces, msg, root)
+    ext = musig.point.tweaked_key(root) if root else musig.point.even_point()
+    plan = [(fresh, msg, "same message, fresh nonces"), (nonces, msg2, "another message"),
+            (fresh, msg2, "another message, fresh nonces"), (nonces, msg, "first session again")]
+    for ks, m, what in plan:
+        try:
+            _, sg = run_session(privs, ks, m, root, musig=musig)
+        except Exception as e:  # noqa
+            return f"session on a reused MuSigTapScript ({what}) raised {type(e).__name__}: {e}"
+        if not ref_schnorr_verify(ext.xonly(), m, sg.serialize()):
+            return f"session on a reused MuSigTapScript ({what}) produced an invalid signature"
+    return None
+
+
 def p_order(secrets, seed):
     import random
     r = random.Random(seed)
@@ -403,7 +430,7 @@ def p_keypath(secrets, k, kind, seed):
     return None
 
 
-PROPS = {k: _quiet(v) for k, v in {"session": p_session, "order": p_order, "ktree": p_ktree,
+PROPS = {k: _quiet(v) for k, v in {"session": p_session, "session_reuse": p_session_reuse, "order": p_order, "ktree": p_ktree,
                                    "keypath": p_keypath}.items()}
 
 # ------------------------------------------------------------------ generators
@@ -517,6 +544,9 @@ def generate(ctx):
             ctx.label(f"session/size={size}/root={'yes' if root else 'no'}/aggparity={agg.parity}")
             yield ("corr", "session", [parts, msg, root])
             yield ("prop", "session", [parts, msg, root, r.getrandbits(30)])
+            if len(parts) <= 3 and r.random() < 0.5:
+                ctx.label("session/reused-object")
+                yield ("prop", "session_reuse", [parts, msg, ctx.rbytes(32), root, r.getrandbits(30)])
     secrets = key_set(r, 2)
     pts = [enc_point(point_of(s)) for s in secrets]
     msg = ctx.rbytes(32)
